@@ -52,12 +52,21 @@ JOBS["C04"] = [
     H("machine", "beaconnet", "^TestMachine$", {"shards": 12, "checks": 25, "timeout": 900, "env": {"VERIF_PROP": "C04"}}, {"shards": 14, "checks": 400, "timeout": 3400, "env": {"VERIF_PROP": "C04"}}),
 ]
 
+JOBS["C03"] = [
+    H("threshold", "beaconnet", "^TestC03Threshold$", {"shards": 12, "checks": 30, "timeout": 900}, {"shards": 14, "checks": 500, "timeout": 3400}),
+]
+
 LEVELS = {"C13": "fault_enumeration"}
 
 _MACHINE = ("rapid state machine over a network of real beacon handlers: scheme in 5, n in 2..6, t in [n/2+1,n], back-end in {memdb (cap 2000 or 10), bolt trimmed, bolt untrimmed}, period 2..6 s; "
             "actions: tick, sub-period advance, burst of 2-6 periods, advance of a subset (skew/stall), realign, partition/heal, queue mode with generated delivery order and drops, duplicate mode, stop/restart (same or fresh store), "
             "forged partial injection (12 kinds incl. valid-for-clock+k), scripted lying sync peer (13 kinds), sync-stream tap. ")
 RULES = {
+    "C03": "networks of real beacon handlers with sync disabled and every link queued (scheme in 5, n in 2..6, t in [n/2+1,n], 0..n-1 members down = corrupted, 2-5 rounds); per round and observer the harness delivers the "
+           "partials of a drawn subset of honest members (so that own + delivered is t-2, t-1 or t), valid partials made on behalf of corrupted members, and junk (wrong share, other round, other/junk previous signature, "
+           "non-member index, receiver's own index, truncated, bit-flipped, empty, replay of a counted member) in a drawn order. Oracle: a node's first Put of round R requires >= t distinct members whose partial for exactly "
+           "(R, previous signature) the harness verified independently and whose delivery started before the Put (own partial counts if emitted by then); with fewer than t contributing members no node ever stores a round; "
+           "positive control: >= t delivered => beacon appears. Non-trivial: some observer/round had exactly t-1 valid partials with junk present, or fewer than t members were up; distinct by configuration + delivery script.",
     "C01": _MACHINE + "Oracle: every successful base-store Put of round>=1 and every streamed beacon verifies under the harness's own digest + group key for exactly that round/previous signature. "
            "Non-trivial: a hostile item (forged partial or hostile sync stream) reached a node and beacons were stored afterwards in the case; distinct by configuration + full action history.",
     "C02": _MACHINE + "Oracle after every step: Put history appends only head+1 or repeats an identical value; store scan is hole-free from 0 (bolt) with prev(r)=sig(r-1) on chained; nodes byte-identical per round. "
@@ -89,6 +98,7 @@ RULES = {
 }
 
 ASSUMPTIONS = {
+    "C03": ["adversary holds fewer than t shares", "kyber VerifyPartial is the harness's validity criterion"],
     "C18": ["bbolt itself is correct", "postgres back-end not reachable offline (not covered)", "signatures are non-empty byte strings"],
     "C17": ["kyber point marshalling is injective", "sha256 / blake2b collisions are not produced by single-field changes"],
     "C20": ["values are those the system can produce (scheme set, threshold in range, non-zero genesis and period for the protobuf path)", "nil and empty byte strings are the same value"],
